@@ -88,6 +88,25 @@ impl Tag {
 /// *    400KiB: 1.228s
 pub(crate) const DEFAULT_STREAM_SIZE: usize = 4_096_000;
 
+thread_local! {
+    static MOVED: std::cell::Cell<u64> = const { std::cell::Cell::new(0) };
+}
+
+/// Note that the current thread moved samples or packets on some stream.
+pub(crate) fn note_moved(n: usize) {
+    MOVED.with(|m| m.set(m.get().wrapping_add(n as u64)));
+}
+
+/// Number of samples and packets the current thread has produced to or
+/// consumed from any stream, ever.
+///
+/// The single threaded graph runner uses this to tell a pass where all blocks
+/// were waiting from a pass where some block moved data but reported a wait
+/// (or EOF) anyway.
+pub(crate) fn moved() -> u64 {
+    MOVED.with(|m| m.get())
+}
+
 /// Wait on a stream.
 ///
 /// For ReadStream, wait until there's enough to read.
@@ -397,6 +416,7 @@ impl<T> NCReadStream<T> {
         let (lock, cv) = &*self.q;
         // TODO: attach tags.
         let ret = lock.lock().unwrap().pop_front().map(|v| (v, Vec::new()));
+        note_moved(ret.is_some() as usize);
         #[cfg(feature = "verif")]
         crate::verif::add_activity(ret.is_some() as usize);
         cv.notify_all();
@@ -427,6 +447,7 @@ impl<T> NCWriteStream<T> {
         let (lock, cv) = &*self.q;
         // TODO: attach tags.
         lock.lock().unwrap().push_back(val);
+        note_moved(1);
         #[cfg(feature = "verif")]
         crate::verif::add_activity(1);
         cv.notify_all();
